@@ -198,7 +198,16 @@ class BaseNode(Node):
         if isinstance(nodes, str):   # block import
             node.value_raw = nodes
         else:                        # node import
-            node.value_raw = nodes[0].value_raw
+            # inject the value the referenced node currently has (after all its modifications)
+            value = nodes[0].value.value if isinstance(nodes[0].value, Type) else nodes[0].value
+            if value is None:
+                node.value_raw = Keyword.NONE
+            elif isinstance(value, (bool, np.bool_)):
+                node.value_raw = Keyword.TRUE if value else Keyword.FALSE
+            elif isinstance(value, (list, np.ndarray)):
+                node.value_raw = json.dumps(np.array(value).tolist())
+            else:
+                node.value_raw = str(value)
             if not node.units_raw:
                 node.units_raw = nodes[0].units_raw
         
